@@ -310,6 +310,21 @@ static std::string do_exc(const std::string& api, std::vector<std::unique_ptr<Ar
 // Arguments of the remaining built-in types (one per case, optionally followed by strings): the text of an argument
 // is what an ostream makes of a value of exactly that static type - a signed/unsigned char is a character, a bool
 // is 1/0, a short is a number.  Token: type letter + hex of the expected text.
+// a type that converts implicitly to std::string (its bare text) and prints decorated: what an argument contributes is
+// what the stream makes of it
+struct Conv
+{
+    std::string inner;
+    operator std::string() const
+    {
+        return inner;
+    }
+};
+static std::ostream& operator<<(std::ostream& o, const Conv& c)
+{
+    return o << "<" << c.inner << ">";
+}
+
 template <typename Fn>
 static void with_ext(const std::string& tok, Fn&& fn)
 {
@@ -342,6 +357,12 @@ static void with_ext(const std::string& tok, Fn&& fn)
         break;
     case 'F':
         fn(static_cast<float>(std::stod(text)));
+        break;
+    case 'C':
+        fn(Conv{ text.substr(1, text.size() - 2) });
+        break;
+    case 'n':
+        fn(nullptr);
         break;
     case 'w':
         fn(static_cast<std::int8_t>(text.at(0)));
@@ -386,6 +407,24 @@ static std::string do_ext_exc(const std::string& api, const std::string& field)
     std::string tail = toks.size() > 1 ? nv::unhex(toks[1].substr(1)) : std::string();
     std::string r;
     with_ext(toks.at(0), [&](auto x) {
+        if (api == "ext1-ctor")
+        {
+            nitro::except::exception e(x);
+            r = e.what();
+            return;
+        }
+        if (api == "ext1-raise")
+        {
+            try
+            {
+                nitro::raise(x);
+            }
+            catch (nitro::except::exception& e)
+            {
+                r = e.what();
+            }
+            return;
+        }
         if (api == "ext-ctor")
         {
             nitro::except::exception e(x, tail);
@@ -419,7 +458,7 @@ static std::string handle(const std::vector<std::string>& f)
             return "raise";
         }
     }
-    if (op == "exc" && f.at(1).rfind("ext-", 0) == 0)
+    if (op == "exc" && f.at(1).rfind("ext", 0) == 0)
         return "ok " + nv::hex(do_ext_exc(f.at(1), f.at(2)));
     if (op == "str")
     {
